@@ -9,6 +9,7 @@ import (
 	"net"
 	"os"
 	"sort"
+	"strings"
 	"time"
 
 	"verif/internal/fw"
@@ -216,6 +217,27 @@ func (raceEngine) Run(ctx *fw.Ctx, cs any) {
 		job.Reqs = append(job.Reqs, ChainReq{SleepMs: 1})
 		reqs = append(reqs, nil)
 	}
+	// last: a large version of the DHCPv4 lease file and, right behind it, a small newer one; the refresh
+	// machinery must end on the newer one (sequentially polled, after the bursts)
+	finalVer := -1
+	if ver < 18 {
+		var sb strings.Builder
+		for i := 0; i < raceStaticMacs; i++ {
+			fmt.Fprintf(&sb, "%s %s\n", net.HardwareAddr(refreshMac(i)), versionAddr(false, ver+1, i))
+		}
+		for i := 0; i < 50000; i++ {
+			fmt.Fprintf(&sb, "0a:%02x:%02x:%02x:00:01 10.%d.%d.%d\n", byte(i>>16), byte(i>>8), byte(i), 100+i>>16, byte(i>>8), byte(i))
+		}
+		job.Reqs = append(job.Reqs, ChainReq{Write: &FileWrite{Name: "l4.txt", Content: sb.String(), Create: true}})
+		reqs = append(reqs, nil)
+		p := pkt.Request4(0xfeed01, refreshMac(0), 1)
+		p.Gi = pkt.IP4("10.9.9.9")
+		finalVer = ver + 2
+		job.Reqs = append(job.Reqs, ChainReq{Hex: hex.EncodeToString(p.Bytes()), RxIf: fakeIf, Peer: "10.9.9.9", Port: 67,
+			Write: &FileWrite{Name: "l4.txt", Content: versionFile(false, raceStaticMacs, finalVer, ""), Create: true},
+			Poll:  &PollSpec{Until: hex.EncodeToString(versionAddr(false, finalVer, 0)), MaxPolls: 120, IntervalMs: 20, Hold: true}})
+		reqs = append(reqs, nil)
+	}
 	out := RunChain(job, ctx.Scratch, 4*time.Minute)
 	desc := fmt.Sprintf("dual-stack full chains, range of %d, %s bursts %v", c.RangeN, c.Kind, c.Bursts)
 	if out.SetupErr != "" {
@@ -223,7 +245,10 @@ func (raceEngine) Run(ctx *fw.Ctx, cs any) {
 		return
 	}
 	if out.Died {
-		ctx.Viol("C16", "crash:"+childFrame(out.Stderr), "%s: the server process died under concurrent load: %s\n%s", desc, panicLine(out.Stderr), firstLines(out.Stderr, 16))
+		for _, pr := range []string{"C16", "C01"} {
+			ctx.Viol(pr, "crash:"+childFrame(out.Stderr), "%s: the server process died under concurrent load: %s\n%s", desc, panicLine(out.Stderr), firstLines(out.Stderr, 16))
+		}
+		noteNilNoStop(ctx, out, desc)
 		return
 	}
 	// index requests by (proto, xid)
@@ -246,6 +271,23 @@ func (raceEngine) Run(ctx *fw.Ctx, cs any) {
 	for _, r := range out.Res {
 		if r.Burst == nil {
 			pos++ // separator
+			if r.Polls > 0 && finalVer > 0 {
+				var seen []int
+				for _, ps := range r.PollSeq {
+					b, _ := hex.DecodeString(ps)
+					if v, ok := verOf(false, b, raceStaticMacs); ok {
+						seen = append(seen, v)
+					} else {
+						seen = append(seen, -1)
+					}
+				}
+				ctx.Count("race.big_then_small", 1)
+				if len(seen) == 0 || seen[len(seen)-1] != finalVer {
+					for _, pr := range []string{"C16", "C10"} {
+						ctx.Viol(pr, "refresh-ends-on-older-file", "%s: a large version of the lease file was written and, right behind it, the small newer version %d; after 2.4 s of polling the server serves %v", desc, finalVer, seen)
+					}
+				}
+			}
 			continue
 		}
 		br := r.Burst
@@ -266,7 +308,9 @@ func (raceEngine) Run(ctx *fw.Ctx, cs any) {
 				totalOverlap++
 			}
 		}
-		ctx.Eval("C16", int64(br.N))
+		for _, pr := range []string{"C16", "C01", "C11", "C12", "C15"} {
+			ctx.Eval(pr, int64(br.N))
+		}
 		answered := map[key]int{}
 		answeredRelay := map[relayKey]int{}
 		byRelay := map[relayKey]*raceReq{}
@@ -493,7 +537,9 @@ func (raceEngine) Run(ctx *fw.Ctx, cs any) {
 	ctx.Count("race.overlapping_pairs", int64(totalOverlap))
 	ctx.Count("race.histories", 1)
 	if totalOverlap > 0 {
-		ctx.Nontrivial("C16", fmt.Sprintf("raceserver/%d/%v/%d", c.Seed, c.Bursts, totalOverlap))
+		for _, pr := range []string{"C16", "C01", "C11", "C12", "C15"} {
+			ctx.Nontrivial(pr, fmt.Sprintf("raceserver/%d/%v/%d", c.Seed, c.Bursts, totalOverlap))
+		}
 	}
 	noteNilNoStop(ctx, out, desc)
 	if ctx.WantSample("C16") {
